@@ -5,7 +5,7 @@
  * library, reached through the macros of parsec_future.h in the instrumented shim; the object
  * macros (NEW / RETAIN / RELEASE) of parsec_object.h.  Simulated: the thread scheduler only.
  *
- * One run owns up to 3 base, 2 countable and 2 datacopy futures shared by 1-8 sim-threads.
+ * One run owns up to 3 (dup_set plans: 3-6) base, 2 countable and 2 datacopy futures shared by 1-8 sim-threads.
  * Client discipline (only legal uses):
  *   base       one "set token" per future, owned by one thread: exactly one set by the client.
  *              Initialisation variants: none (as tests/class/future.c), init without / with a
@@ -14,7 +14,10 @@
  *              tokens owned by different threads (owner, owner+1, ... modulo the thread count),
  *              each set with its own fresh value.  The library tolerates it ("Trying to set a base
  *              future that is already in a ready state" on the silenced stream; the first value is
- *              kept); this is what exercises the CAS-once of parsec_base_future_set.
+ *              kept); this is what exercises the CAS-once of parsec_base_future_set.  Such plans have
+ *              3-6 base futures, usually dense preemption (plan knob sim_mean_gap), owners whose
+ *              lists begin with the sets, and knob dup_gate: the first setter of a future delays its
+ *              set by at most dup_gate yields until a second setter arrives (bounded, cannot block).
  *   countable  `count` set tokens distributed over the threads; exactly `count` sets.
  *   blocking   a thread spends ALL its remaining set tokens before it enters a blocking get, and
  *              every thread spends its remaining tokens at the end of its list; hence there is no
@@ -98,7 +101,8 @@ static const char *const probe_names[] = {"blocking_get_entered_before_set", "co
                                           "two_sets_of_one_base_future_overlap", "base_set_invoked_on_completed_future", "base_value_read_while_a_further_set_is_pending_or_running"};
 
 #define MAXT 8
-#define MAXB 3
+#define MAXB 6          /* base futures: up to MAXB_PLAIN, dup_set plans MAXB_PLAIN..MAXB */
+#define MAXB_PLAIN 3
 #define MAXC 2
 #define MAXD 2
 #define MAXS 4
@@ -107,7 +111,7 @@ static const char *const probe_names[] = {"blocking_get_entered_before_set", "co
 #define MAXTOK 3
 /* base future: ntok set tokens (1 unless dup_set); tok_val[k] != NULL <=> the set of token k has been invoked;
  * n_inv / n_done = sets invoked / returned; settled: see "not-ready-after-set" above; seen = value obtained by the first reader */
-typedef struct { parsec_base_future_t *f; int mode, ntok, tok_owner[MAXTOK], tok_spent[MAXTOK], n_inv, n_done, settled, cb_calls; void *tok_val[MAXTOK], *seen; } bf_t;
+typedef struct { parsec_base_future_t *f; int mode, ntok, tok_owner[MAXTOK], tok_spent[MAXTOK], gate, n_inv, n_done, settled, cb_calls; void *tok_val[MAXTOK], *seen; } bf_t;
 typedef struct { parsec_countable_future_t *f; int count, has_cb, tokens[MAXT + 1], inv, done, inflight, cb_calls; } cf_t;
 typedef struct dnode { parsec_datacopy_future_t *fut; int exists, dead, spec, async, fulfil_calls, trigger_thread, pending, set_inv, set_done, cleanup_calls, readers_inflight; void *val, *first_val; } dnode_t;
 typedef struct {
@@ -120,7 +124,7 @@ typedef struct {
 typedef struct {
     const hx_plan_t *plan;
     hx_result_t *res;
-    int T, nb, nc, nd, cbdelay;
+    int T, nb, nc, nd, cbdelay, dup_gate;
     bf_t b[MAXB];
     cf_t c[MAXC];
     df_t d[MAXD];
@@ -299,6 +303,13 @@ static void op_bset(ctx_t *c, int t, int i)
     while (k < b->ntok && (b->tok_owner[k] != t || b->tok_spent[k])) k++;
     if (k == b->ntok) return;       /* thread t has no (more) set token of this future */
     b->tok_spent[k] = 1;
+    if (b->ntok > 1) {
+        /* knob dup_gate: the first setter of a future with several tokens delays its set by at most
+         * dup_gate yields, until a second setter arrives (a bounded delay: legal, cannot block) */
+        b->gate++;
+        for (int y = 0; y < c->dup_gate && b->gate < 2 && !failed(c); y++) sim_yield();
+        if (failed(c)) return;
+    }
     b->tok_val[k] = fresh(c);
     if (b->n_inv > b->n_done) sim_probe(PR_BSET_OVERLAP);
     if (b->settled) sim_probe(PR_BSET_AFTER_READY);
@@ -499,19 +510,34 @@ static void gen(hx_plan_t *p, hx_rng_t *r)
 {
     char kn[32];
     int T = (int)hx_range(r, 1, MAXT);
-    int nb = (int)hx_below(r, MAXB + 1), nc = (int)hx_below(r, MAXC + 1), nd = (int)hx_below(r, MAXD + 1);
+    int nb = (int)hx_below(r, MAXB_PLAIN + 1), nc = (int)hx_below(r, MAXC + 1), nd = (int)hx_below(r, MAXD + 1);
     int focus = (int)hx_below(r, 4);        /* swarm: concentrate on one kind in 3 of 4 runs */
     if (focus == 0) { nc = hx_chance(r, 30) ? nc : 0; nd = hx_chance(r, 30) ? nd : 0; if (!nb) nb = 1; }
     if (focus == 1) { nb = hx_chance(r, 30) ? nb : 0; nd = hx_chance(r, 30) ? nd : 0; if (!nc) nc = 1; if (T < 3) T = 3; }
     if (focus == 2) { nb = hx_chance(r, 30) ? nb : 0; nc = hx_chance(r, 30) ? nc : 0; if (!nd) nd = 1; }
     if (nb + nc + nd == 0) nd = 1;
-    int dup = hx_chance(r, 30);             /* several sets of one base future (see header) */
-    if (dup) { if (T < 2) T = 2; if (!nb) nb = 1; }
+    /* dup_set: several sets of one base future (see header).  One run costs a fork and the window in which
+     * two sets can conflict is a couple of accesses wide, so such a plan offers many opportunities: 3-6
+     * base futures (at most one countable / datacopy future beside them: knob budget), often few threads */
+    int dup = hx_chance(r, 30);
+    if (dup) {
+        nb = (int)hx_range(r, MAXB_PLAIN, MAXB);
+        if (nc > 1) nc = 1;
+        if (nd > 1) nd = 1;
+        if (hx_chance(r, 50)) T = (int)hx_range(r, 2, 3);
+        if (T < 2) T = 2;
+    }
     hx_set_knob(p, "threads", T);
     hx_set_knob(p, "dup_set", dup);
+    /* a set is a handful of accesses and the default mean preemption gap is 25-3200 weight units: two sets
+     * of one future would practically never interleave access by access.  Most dup_set plans therefore ask
+     * for dense random preemption through the plan knob hx defines for that purpose. */
+    if (dup && hx_chance(r, 85)) hx_set_knob(p, "sim_mean_gap", hx_range(r, 3, 20));
+    if (dup) hx_set_knob(p, "dup_gate", hx_chance(r, 20) ? 0 : hx_range(r, 1, 12));
     hx_set_knob(p, "nb", nb); hx_set_knob(p, "nc", nc); hx_set_knob(p, "nd", nd);
     hx_set_knob(p, "cbdelay", hx_below(r, 4));
     hx_set_knob(p, "main_first", hx_chance(r, 60));
+    int early[MAXB] = {0};
     for (int i = 0; i < nb; i++) {
         kname(kn, "b", i, "mode"); hx_set_knob(p, kn, hx_below(r, 3));
         int owner = (int)hx_below(r, T);
@@ -519,15 +545,18 @@ static void gen(hx_plan_t *p, hx_rng_t *r)
         if (dup) {
             int ns = hx_chance(r, 15) ? 1 : (int)hx_range(r, 2, MAXTOK);
             kname(kn, "b", i, "nset"); hx_set_knob(p, kn, ns);
-            /* two sets only race when their owners reach them at about the same time: in 2 of 3 futures
-             * the owners' lists begin with the set (all threads start together), and some other threads'
-             * lists begin with a read, so that a value is observed before a late second store */
-            if (ns > 1 && hx_chance(r, 66)) {
+            /* two sets only race when their owners reach them at about the same time: for 3 of 4 futures
+             * the owners' lists begin with the set (all threads start together) ... */
+            if (ns > 1 && hx_chance(r, 75)) {
+                early[i] = 1;
                 for (int k = 0; k < ns && k < T; k++) hx_add_op(p, (owner + k) % T, OP_BSET, i, hx_below(r, 1000), hx_below(r, 1000));
-                for (int t = 0; t < T; t++) if (hx_chance(r, 40)) hx_add_op(p, t, hx_chance(r, 50) ? OP_BGET : OP_BREADY, i, hx_below(r, 1000), hx_below(r, 1000));
             }
         }
     }
+    /* ... followed by reads, so that a value is observed before a late second store (a blocking get makes
+     * the thread spend its other set tokens first) */
+    for (int i = 0; i < nb; i++) if (early[i])
+        for (int t = 0; t < T; t++) if (hx_chance(r, 40)) hx_add_op(p, t, hx_chance(r, 40) ? OP_BGET : OP_BREADY, i, hx_below(r, 1000), hx_below(r, 1000));
     for (int i = 0; i < nc; i++) {
         kname(kn, "c", i, "count"); hx_set_knob(p, kn, hx_range(r, 1, 6));
         kname(kn, "c", i, "dist"); hx_set_knob(p, kn, hx_below(r, 1L << 30));
@@ -571,6 +600,7 @@ static void run(const hx_plan_t *p, hx_result_t *res)
     c.cbdelay = (int)hx_knob(p, "cbdelay", 0);
     int main_first = (int)hx_knob(p, "main_first", 0);
     int dup_set = hx_knob(p, "dup_set", 0) != 0;
+    c.dup_gate = (int)(labs(hx_knob(p, "dup_gate", 0)) % 17);
     for (int i = 0; i < 64; i++) c.idx_of_sim[i] = c.T;
     c.nvals = 1;    /* vals[0] is the dummy argument of countable sets */
     G = &c;
